@@ -22,11 +22,21 @@
          quiescent G cf = true -> selected_async G cf = map Some a.        (default start_messages deadlocks)
      the synchronous statement with the default stability 0.1               (cut-off freezes a changing message)
      a constraint-less variable with an initial_value                       (never re-selects)
-   A-Max-Sum with start_messages=all and stability 0 is believed exact (correspondence + oracle) but its
-   schedule-dependent message order is not covered by the lock-step argument; only the local lemmas and the
-   all-schedule deadlock characterisation are proved for it. *)
+   ASYNCHRONOUS A-Max-Sum: PROVED ([amaxsum_tree_exact], block "deepening 2" below) for start_messages = leafs_vars
+   or all ([spoken_ok]), stability 0, damping 0: for EVERY schedule, once the network is quiescent (every
+   computation started, no message in flight) the selected assignment is the unique optimum.  No rounds exist
+   here; the chain is
+     amaxsum_basic_invariants           messages only travel along edges, a running computation buffers nothing,
+                                        current_value is the selection on the costs held now;
+     amaxsum_edge_consistent            every reachable configuration: the last message on an edge (delivered, in
+                                        flight, buffered, or withheld as an exact repeat by the SAME_COUNT block)
+                                        is the table its sender computes from what it holds NOW;
+     amaxsum_quiescent_fixed_point      at quiescence the costs dicts solve the message equations;
+     amaxsum_fixed_point_exact          on a forest every solution is the exact min/max-marginal (up to a constant);
+     amaxsum_tree_exact                 hence the selection is the optimum.
+   The unrestricted statement (default start_messages = leafs) stays refuted below. *)
 From Coq Require Import QArith.
-From PyDcop Require Import Base Net M_SyncMixin P_SyncMixin M_MaxSum P_MaxSum P_MaxSum2 P_MaxSum3 P_MaxSum4 P_MaxSum5.
+From PyDcop Require Import Base Net M_SyncMixin P_SyncMixin M_MaxSum P_MaxSum P_MaxSum2 P_MaxSum3 P_MaxSum4 P_MaxSum5 P_AMaxSum2.
 Local Open Scope Z_scope.
 
 (* factor -> variable message: entry d is the optimum, over all assignments of the factor's other variables,
@@ -152,6 +162,72 @@ Theorem maxsum_tree_exact : forall P G, wf_dcop G -> (p_stab P == 0)%Q -> (p_dam
   rounds_done P G cf (S H) = true -> selected_sync G cf = map Some a.
 Proof. exact maxsum_tree_exact_l. Qed.
 
+(* ==== deepening 2: ASYNCHRONOUS A-Max-Sum, every schedule ===================================================
+   Vocabulary (P_AMaxSum2.v): [stream cf a b] = everything queued from a for b (buffered by b before its start, then
+   the channel); [pend cf a b] = the table b will hold for a once that queue is drained (last queued message, else
+   b's costs entry); [sendok G cf a] = a may speak (a variable; or a factor holding a table of every variable of its
+   scope -- amaxsum factors wait for all their variables); [comp_table P G a c b] = the table a builds for b from
+   the costs dict c (costs_for_factor / factor_costs_for_var); [spoken_ok P] = start_messages is leafs_vars or all
+   (every variable speaks on every edge at start-up -- exactly what the base case of the tree induction needs; the
+   default start_messages = leafs is refuted below). *)
+Theorem amaxsum_spoken_ok_all : forall P, p_start P = 2%nat -> spoken_ok P.
+Proof. intros P H. right. exact H. Qed.
+
+(* basic invariants of every reachable configuration (no hypothesis on the parameters) *)
+Theorem amaxsum_basic_invariants : forall P G, wf_dcop G ->
+  forall cf, reachable (amaxsum_proto P G) cf ->
+    (forall n, w_running (nodes cf n) = false -> w_st (nodes cf n) = nst0) /\
+    (forall n, w_running (nodes cf n) = true -> w_held (nodes cf n) = []) /\
+    (forall s d, stream cf s d <> [] -> In d (nbrs G s)) /\
+    (forall n, NoDup (map fst (n_costs (w_st (nodes cf n)))) /\ incl (map fst (n_costs (w_st (nodes cf n)))) (nbrs G n)) /\
+    (forall x vd, zlookup x (d_vars G) = Some vd -> w_running (nodes cf x) = true ->
+        current_value (w_st (nodes cf x)) = Some (fst (select_value (p_max P) vd (n_costs (w_st (nodes cf x))))) \/
+        (n_costs (w_st (nodes cf x)) = [] /\ v_init vd <> None)).
+Proof. exact inv0_reachable. Qed.
+
+(* EDGE CONSISTENCY, every reachable configuration, stability 0 / damping 0 / spoken_ok: for every edge a->b
+   (1) an entry of a's _prev_messages for b is the table b will end up holding (and is a table a computed), so the
+       approx_match/SAME_COUNT block only ever withholds a message b is already going to hold;
+   (2) if a runs and may speak, the table b will end up holding is the one a computes from the costs it holds now *)
+Theorem amaxsum_edge_consistent : forall P G, wf_dcop G -> (p_stab P == 0)%Q -> (p_damp P == 0)%Q -> spoken_ok P ->
+  forall cf, reachable (amaxsum_proto P G) cf ->
+  forall a b, In b (nbrs G a) ->
+    (forall p c, zlookup b (n_prev (w_st (nodes cf a))) = Some (p, c) ->
+        pend cf a b = Some p /\ exists c', p = comp_table P G a c' b) /\
+    (w_running (nodes cf a) = true -> sendok G cf a ->
+        pend cf a b = Some (comp_table P G a (n_costs (w_st (nodes cf a))) b)).
+Proof. exact inv1_reachable. Qed.
+
+(* at quiescence every factor is complete and nothing is queued: the costs dicts solve the message equations *)
+Theorem amaxsum_quiescent_fixed_point : forall P G, wf_dcop G -> (p_stab P == 0)%Q -> (p_damp P == 0)%Q -> spoken_ok P ->
+  forall cf, reachable (amaxsum_proto P G) cf -> quiescent G cf = true ->
+  forall a b, In b (nbrs G a) ->
+    zlookup a (n_costs (w_st (nodes cf b))) = Some (comp_table P G a (n_costs (w_st (nodes cf a))) b).
+Proof. exact quiescent_fixed_point. Qed.
+
+(* on a forest EVERY solution C of the message equations is exact: the table on a->b is, entry by entry, the optimum
+   of the cost of the subtree behind a->b ([SC]) over all valid assignments, up to the constant [KF] (the
+   normalisation averages met in the subtree); min and max, any arity and domain sizes *)
+Theorem amaxsum_fixed_point_exact : forall P G, wf_dcop G ->
+  forall C : node -> list (node * table),
+  (forall a b, In b (nbrs G a) -> zlookup a (C b) = Some (comp_table P G a (C a) b)) ->
+  (forall x vd, In (x, vd) (d_vars G) -> (0 < v_dom vd)%nat) ->
+  forall h a b, In b (nbrs G a) -> low G h a b = true -> NoDup (SN G h a b) -> ~ In b (SN G h a b) ->
+    List.length (comp_table P G a (C a) b) = dom_of G (xv G a b) /\
+    is_margf P G (xv G a b) (dom_of G (xv G a b))
+             (fun d => tget (comp_table P G a (C a) b) d + KF G C h a b)%Q (SC G h a b).
+Proof. exact fp_tree_messages. Qed.
+
+(* ---- THE PROPERTY, asynchronous A-Max-Sum, every schedule, min and max: on a forest with a unique optimum,
+   stability 0, damping 0 and start_messages leafs_vars or all, once the network is quiescent the selected
+   assignment is the optimum.  (Quiescence is the hypothesis: safety, not termination.) *)
+Theorem amaxsum_tree_exact : forall P G, wf_dcop G -> (p_stab P == 0)%Q -> (p_damp P == 0)%Q -> spoken_ok P ->
+  forall a H sched, unique_optimum (p_max P) G a -> forest_ok_b G H = true ->
+  (forall x vd, In (x, vd) (d_vars G) -> nbrs G x = [] -> v_init vd = None) ->
+  let cf := fst (run (amaxsum_proto P G) sched) in
+  quiescent G cf = true -> selected_async G cf = map Some a.
+Proof. exact amaxsum_tree_exact_l. Qed.
+
 (* refutations of the full statements on the code as it is (known findings) *)
 Theorem amaxsum_tree_exact_refuted :
   exists G a sched,
@@ -198,3 +274,17 @@ Example maxsum_tree_exact_hypotheses :
   (p_stab (par 0 0) == 0)%Q /\ (p_damp (par 0 0) == 0)%Q /\
   rounds_done (par 0 0) W_chain4 (fst (run (maxsum_proto (par 0 0) W_chain4) (lockstep (all_nodes W_chain4) 14))) 7 = true.
 Proof. vm_compute. repeat split; reflexivity. Qed.
+
+(* the hypotheses of amaxsum_tree_exact hold on the 3-variable chain, for start_messages = all and = leafs_vars *)
+Example amaxsum_tree_exact_hypotheses :
+  wf_dcop_b W_chain3 = true /\ forest_ok_b W_chain3 4 = true /\ forest_ok_b W_chain3 3 = false /\
+  spoken_ok (par 0 2) /\ spoken_ok (par 0 1) /\
+  quiescent W_chain3 (fst (run (amaxsum_proto (par 0 2) W_chain3) (lockstep (all_nodes W_chain3) 12))) = true /\
+  quiescent W_chain3 (fst (run (amaxsum_proto (par 0 1) W_chain3) (lockstep (all_nodes W_chain3) 12))) = true /\
+  selected_async W_chain3 (fst (run (amaxsum_proto (par 0 1) W_chain3) (lockstep (all_nodes W_chain3) 12)))
+    = map Some [1; 1; 0]%nat.
+Proof.
+  split; [vm_compute; reflexivity|]. split; [vm_compute; reflexivity|]. split; [vm_compute; reflexivity|].
+  split; [right; reflexivity|]. split; [left; reflexivity|].
+  split; [vm_compute; reflexivity|]. split; vm_compute; reflexivity.
+Qed.
